@@ -92,8 +92,10 @@ open GoguVerif.Theorems.C20
 #print axioms GoguVerif.Theorems.C20More.not_trailing_trigger_in_period_lost_forever
 #print axioms GoguVerif.Theorems.C20More.skipAt_const
 #print axioms GoguVerif.Theorems.C20More.not_trailing_trigger_in_period_lost_forever'
--- debounce: goroutines of expired timers that start late (F37)
-#print axioms GoguVerif.Theorems.C20Late.dlate_runs_ok
+-- debounce: goroutines of expired timers that start late (F37, F46)
+#print axioms GoguVerif.Theorems.C20Late.dlrun_inv
+#print axioms GoguVerif.Theorems.C20Late.dlate_runs_ok_partial
+#print axioms GoguVerif.Theorems.C20Late.dlate_full_false
 #print axioms GoguVerif.Theorems.C20Late.dl_lastEv
 #print axioms GoguVerif.Theorems.C20Late.dlate_old_runs_after_cancel
 #print axioms GoguVerif.Theorems.C20Late.dlate_old_runs_early
